@@ -106,6 +106,9 @@ class HistParametricModel(ParametricModelBaseMixin, HistContainer):
         # don't use parent class setter for 'data' -> set directly
         self._data[1:-1] = self._bin_evaluation_method()
         self._pm_calculation_stale = False
+        # reset member error references to the new model values
+        for _err_dict in self._error_dicts.values():
+            _err_dict["err"].reference = self._get_error_reference
 
     def _bin_evaluation_rectangle(self):
         _height_centers = self.eval_model_function_density(self.bin_centers)
